@@ -724,4 +724,249 @@ theorem dialFailure_transfers (s : State) (p : Peer) : Transfers s (dialFailure 
 theorem Aux.dialFailure {s : State} (h : Aux s) (p : Peer) : Aux (dialFailure s p) :=
   h.of_sublist h.ctxConn (List.Sublist.refl _) (List.Sublist.refl _) (List.Sublist.refl _) rfl
 
+
+/-! ### `on_connection_established` -/
+
+theorem drainDials_le (p : Peer) (s : State) (acts : List PAction) (outs : List Bool) :
+    OwnersLe s (drainDials p s acts outs) := by
+  induction acts generalizing s outs with
+  | nil => exact OwnersLe.rfl' _
+  | cons a as ih =>
+    unfold drainDials
+    split
+    · exact OwnersLe.trans (by owners_le) (ih _ _)
+    · exact OwnersLe.trans (by owners_le) (ih _ _)
+
+theorem drainDials_ctx (p : Peer) (s : State) (acts : List PAction) (outs : List Bool) :
+    (drainDials p s acts outs).ctx = s.ctx ∧ (drainDials p s acts outs).connected = s.connected := by
+  induction acts generalizing s outs with
+  | nil => exact ⟨rfl, rfl⟩
+  | cons a as ih =>
+    unfold drainDials
+    split
+    · exact ih _ _
+    · exact ih _ _
+
+/-- Every drained dial action is tracked as a pending substream open, or its query has been told. -/
+theorem drainDials_owned (p : Peer) (s : State) (acts : List PAction) (outs : List Bool) (hctx : p ∈ s.ctx)
+    (a : PAction) (ha : a ∈ acts) (lk : Bool) (hm : mA lk a.kind = true) :
+    Owned (drainDials p s acts outs) a.q lk p ∨ Gone (drainDials p s acts outs).engine a.q lk p := by
+  induction acts generalizing s outs with
+  | nil => exact absurd ha (by simp)
+  | cons b as ih =>
+    unfold drainDials
+    rcases List.mem_cons.mp ha with hab | ha
+    · subst hab
+      split
+      · refine .inl (Owned.mono (drainDials_le _ _ _ _) ?_)
+        exact .inr (.inl ⟨s.nextSid, a, by simp, rfl, hm, by simp, by simp, hctx⟩)
+      · exact .inr (Gone.sub (drainDials_shrinks _ _ _ _ _ (.refl _)).sub (gone_bothFail _ _ _ _))
+    · split
+      · exact ih _ _ hctx ha
+      · exact ih _ _ hctx ha
+
+theorem Aux.drainDials {s : State} (h : Aux s) (p : Peer) (acts : List PAction) (outs : List Bool) :
+    Aux (drainDials p s acts outs) := by
+  induction acts generalizing s outs with
+  | nil => exact h
+  | cons a as ih =>
+    unfold Coordinator.drainDials
+    split
+    · apply ih
+      exact h.addSub p a h.ctxConn rfl rfl rfl rfl
+    · apply ih
+      exact h.of_sublist h.ctxConn (List.Sublist.refl _) (List.Sublist.refl _) (List.Sublist.refl _) rfl
+
+theorem established_transfers (s : State) (p : Peer) (outs : List Bool) (hA : Aux s) :
+    Transfers s (established s p outs) := by
+  intro q lk p' ho
+  unfold established
+  split
+  · exact .inl ho
+  · rename_i hconn
+    have hctx : p ∉ s.ctx := fun hc => hconn (hA.ctxConn p hc)
+    unfold onConnectionEstablished
+    simp only []
+    rw [if_neg hctx]
+    -- owners that are not dial actions of `p`
+    have hsplit : (∀ s1 : State, s1.dials = s.dials.filter (fun d => d.1 != p) →
+          s1.dialing = s.dialing.filter (· != p) → s1.actions = s.actions → s1.opening = s.opening →
+          s1.pendingSubs = s.pendingSubs → (∀ x ∈ s.ctx, x ∈ s1.ctx) → s1.futs = s.futs → Owned s1 q lk p') ∨
+        (p' = p ∧ ∃ a, (p, a) ∈ s.dials ∧ a.q = q ∧ mA lk a.kind = true) := by
+      rcases ho with ⟨a, hd, h2, h3, h4⟩ | ⟨sid, a, ha, h2, h3, h4, h5, h6⟩ | ⟨k, hf, h3⟩
+      · by_cases hp : p' = p
+        · subst hp; exact .inr ⟨rfl, a, hd, h2, h3⟩
+        · refine .inl (fun s1 e1 e2 _ _ _ _ _ => .inl ⟨a, ?_, h2, h3, ?_⟩)
+          · rw [e1]; exact List.mem_filter.mpr ⟨hd, by simp [hp]⟩
+          · rw [e2]; exact List.mem_filter.mpr ⟨h4, by simp [hp]⟩
+      · refine .inl (fun s1 _ _ e3 e4 e5 e6 _ => .inr (.inl ⟨sid, a, ?_, h2, h3, ?_, ?_, e6 _ h6⟩))
+        · rw [e3]; exact ha
+        · rw [e4]; exact h4
+        · rw [e5]; exact h5
+      · refine .inl (fun s1 _ _ _ _ _ _ e7 => .inr (.inr ⟨k, ?_, h3⟩))
+        rw [e7]; exact hf
+    cases hda : dialActions { s with connected := s.connected ++ [p], dialing := s.dialing.filter (· != p) } p with
+    | nil =>
+      simp only []
+      rcases hsplit with h1 | ⟨hp, a, hd, h2, h3⟩
+      · -- the dial entries of other peers are untouched
+        rcases ho with ⟨a, hd, h2, h3, h4⟩ | ⟨sid, a, ha, h2, h3, h4, h5, h6⟩ | ⟨k, hf, h3⟩
+        · by_cases hp : p' = p
+          · subst hp
+            have : a ∈ dialActions { s with connected := s.connected ++ [p'], dialing := s.dialing.filter (· != p') } p' :=
+              List.mem_map.mpr ⟨(p', a), List.mem_filter.mpr ⟨hd, by simp⟩, rfl⟩
+            rw [hda] at this
+            exact absurd this (by simp)
+          · exact .inl (.inl ⟨a, hd, h2, h3, List.mem_filter.mpr ⟨h4, by simp [hp]⟩⟩)
+        · exact .inl (.inr (.inl ⟨sid, a, ha, h2, h3, h4, h5, h6⟩))
+        · exact .inl (.inr (.inr ⟨k, hf, h3⟩))
+      · have : a ∈ dialActions { s with connected := s.connected ++ [p], dialing := s.dialing.filter (· != p) } p :=
+          List.mem_map.mpr ⟨(p, a), List.mem_filter.mpr ⟨hd, by simp⟩, rfl⟩
+        rw [hda] at this
+        exact absurd this (by simp)
+    | cons b bs =>
+      simp only []
+      rcases hsplit with h1 | ⟨hp, a, hd, h2, h3⟩
+      · refine .inl (Owned.mono (drainDials_le _ _ _ _) ?_)
+        exact h1 _ rfl rfl rfl rfl rfl (fun x hx => List.mem_append_left _ hx) rfl
+      · subst hp; subst h2
+        have hmem : a ∈ b :: bs := by
+          rw [← hda]
+          exact List.mem_map.mpr ⟨(p', a), List.mem_filter.mpr ⟨hd, by simp⟩, rfl⟩
+        exact drainDials_owned p' _ (b :: bs) outs (by simp) a hmem lk h3
+
+theorem Aux.established {s : State} (h : Aux s) (p : Peer) (outs : List Bool) : Aux (established s p outs) := by
+  unfold Coordinator.established
+  split
+  · exact h
+  · have h0 : Aux { s with connected := s.connected ++ [p], dialing := s.dialing.filter (· != p) } :=
+      h.of_sublist (fun x hx => List.mem_append_left _ (h.ctxConn x hx)) (List.Sublist.refl _) (List.Sublist.refl _)
+        (List.Sublist.refl _) rfl
+    unfold onConnectionEstablished
+    split
+    · exact h0
+    · simp only []
+      split
+      · exact h0
+      · apply Aux.drainDials
+        refine h.of_sublist ?_ (List.Sublist.refl _) (List.Sublist.refl _) (List.Sublist.refl _) rfl
+        intro x hx
+        rcases List.mem_append.mp hx with hx | hx
+        · exact List.mem_append_left _ (h.ctxConn x hx)
+        · exact List.mem_append_right _ hx
+
+/-! ## `open_substream_or_dial` and the engine actions -/
+
+theorem openSub_le (s : State) (p : Peer) (a : PAction) : OwnersLe s (openSub s p a) := by
+  unfold openSub
+  constructor <;> intro x hx <;> first | exact hx | exact List.mem_append_left _ hx | skip
+  simp only []
+  split
+  · exact hx
+  · exact List.mem_append_left _ hx
+
+theorem openSub_owned (s : State) (p : Peer) (a : PAction) (lk : Bool) (hm : mA lk a.kind = true) :
+    Owned (openSub s p a) a.q lk p := by
+  refine .inr (.inl ⟨s.nextSid, a, by simp [openSub], rfl, hm, by simp [openSub], by simp [openSub], ?_⟩)
+  unfold openSub
+  simp only []
+  split
+  · assumption
+  · simp
+
+theorem Aux.openSub {s : State} (h : Aux s) (p : Peer) (a : PAction) (hp : p ∈ s.connected) : Aux (openSub s p a) := by
+  refine h.addSub p a ?_ rfl rfl rfl rfl
+  intro x hx
+  unfold Coordinator.openSub at hx
+  simp only [] at hx
+  split at hx
+  · exact h.ctxConn x hx
+  · rcases List.mem_append.mp hx with hx | hx
+    · exact h.ctxConn x hx
+    · simp at hx; subst hx; exact hp
+
+theorem osd_le (s : State) (p : Peer) (a : PAction) (o : OsdIn) : OwnersLe s (osd s p a o).1 := by
+  unfold osd
+  split
+  · exact openSub_le ..
+  · split
+    · constructor <;> intro x hx <;> first | exact hx | exact List.mem_append_left _ hx | skip
+      simp only []
+      split
+      · exact hx
+      · exact List.mem_append_left _ hx
+    · split
+      · exact openSub_le ..
+      · exact OwnersLe.rfl' _
+    · exact OwnersLe.rfl' _
+
+theorem osd_owned (s : State) (p : Peer) (a : PAction) (o : OsdIn) (lk : Bool) (hm : mA lk a.kind = true)
+    (hok : (osd s p a o).2 = true) : Owned (osd s p a o).1 a.q lk p := by
+  unfold osd at hok ⊢
+  split
+  · exact openSub_owned _ _ _ _ hm
+  · rename_i h1
+    rw [if_neg h1] at hok
+    split
+    · refine .inl ⟨a, by simp, rfl, hm, ?_⟩
+      simp only []
+      split
+      · assumption
+      · simp
+    · rename_i hd
+      rw [hd] at hok
+      simp only [] at hok
+      split
+      · exact openSub_owned _ _ _ _ hm
+      · rename_i h2
+        rw [if_neg h2] at hok
+        exact absurd hok (by simp)
+    · rename_i hd
+      rw [hd] at hok
+      exact absurd hok (by simp)
+
+theorem Aux.osd {s : State} (h : Aux s) (p : Peer) (a : PAction) (o : OsdIn) : Aux (osd s p a o).1 := by
+  unfold Coordinator.osd
+  split
+  · rename_i h1; exact h.openSub p a h1.1
+  · split
+    · exact h.of_sublist h.ctxConn (List.Sublist.refl _) (List.Sublist.refl _) (List.Sublist.refl _) rfl
+    · split
+      · rename_i h2; exact h.openSub p a h2.1
+      · exact h
+    · exact h
+
+theorem fanOut_le (k : AKind) (q : Qid) (s : State) (ps : List Peer) (outs : List OsdIn) :
+    OwnersLe s (fanOut k q s ps outs).1 := by
+  induction ps generalizing s outs with
+  | nil => exact OwnersLe.rfl' _
+  | cons p ps ih => simp only [fanOut]; exact (osd_le ..).trans (ih _ _)
+
+/-- Every target of the fan-out is owned afterwards, or is in the list of failed targets. -/
+theorem fanOut_owned (k : AKind) (q : Qid) (s : State) (ps : List Peer) (outs : List OsdIn) (lk : Bool)
+    (hm : mA lk k = true) (p : Peer) (hp : p ∈ ps) :
+    p ∈ (fanOut k q s ps outs).2 ∨ Owned (fanOut k q s ps outs).1 q lk p := by
+  induction ps generalizing s outs with
+  | nil => exact absurd hp (by simp)
+  | cons p0 ps ih =>
+    simp only [fanOut]
+    by_cases hok : (osd s p0 ⟨k, q⟩ (outs.headD default)).2 = true
+    · rw [if_pos hok]
+      rcases List.mem_cons.mp hp with hpp | hp
+      · subst hpp
+        exact .inr (Owned.mono (fanOut_le ..) (osd_owned s p ⟨k, q⟩ _ lk hm hok))
+      · exact ih _ _ hp
+    · rw [if_neg hok]
+      rcases List.mem_cons.mp hp with hpp | hp
+      · subst hpp; exact .inl List.mem_cons_self
+      · rcases ih (osd s p0 ⟨k, q⟩ (outs.headD default)).1 outs.tail hp with h | h
+        · exact .inl (List.mem_cons_of_mem _ h)
+        · exact .inr h
+
+theorem Aux.fanOut {s : State} (h : Aux s) (k : AKind) (q : Qid) (ps : List Peer) (outs : List OsdIn) :
+    Aux (fanOut k q s ps outs).1 := by
+  induction ps generalizing s outs with
+  | nil => exact h
+  | cons p ps ih => simp only [Coordinator.fanOut]; exact ih (h.osd ..) _
+
 end Litep2pVerif.Kad.Coordinator
